@@ -86,7 +86,7 @@ struct RawServer {
                 continue;
             }
             if (b == B_NEVER) continue;
-            if (b == B_DELAYED) lv::msleep(param >= 600 && param < 640 ? param : 10 + param % 40);
+            if (b == B_DELAYED) lv::msleep(param >= 10000 ? param - 10000 : param >= 600 && param < 640 ? param : 10 + param % 40);
             if (b == B_LATE) lv::msleep(param);   // param = client's time-out + margin
             respond(fd, resp, b == B_DRIBBLE);
             { std::lock_guard<std::mutex> g(m); log[li].answered = true; }
@@ -105,8 +105,10 @@ static void c15_batch(long idx, long n, uint64_t seed) {
         Rng r(seed);
         RawServer srv; srv.start();
         int threads = r.range(1, 4), maxConn = r.range(1, 8), nreq = r.range(1, 64);
-        int scenario = (int)(n % 5);   // 0 only answering behaviours, 1 with never-answered + time-outs, 2 with late answers, 3 close-after mix,
-                                       // 4 answered requests that carry a time-out followed by slow requests without one
+        int scenario = (int)(n % 6);   // 0 only answering behaviours, 1 with never-answered + time-outs, 2 with late answers, 3 close-after mix,
+                                       // 4 answered requests that carry a time-out followed by slow requests without one,
+                                       // 5 a response and the expiry of a time-out reaching the client in ONE poll result (see below)
+        if (scenario == 5) { threads = 1; maxConn = 2; nreq = 7; }
         Http::Experimental::Client client;
         client.init(Http::Experimental::Client::options().threads(threads).maxConnectionsPerHost(maxConn));
         std::vector<std::unique_ptr<Outcome>> out; std::vector<int> beh((size_t)nreq), timeoutMs((size_t)nreq, 0);
@@ -116,6 +118,7 @@ static void c15_batch(long idx, long n, uint64_t seed) {
         // application threads issuing the batch: 1, or several released together (the pool is then claimed concurrently by the
         // issuers and by the I/O threads handing queued requests over)
         int issuers = r.chance(2, 5) ? r.range(2, 6) : 1;
+        if (scenario == 5) issuers = 1;
         cfg += " issuers=" + std::to_string(issuers);
         set_case(idx, Json().num("i", idx).str("phase", "c15").str("config", cfg).done());
         std::vector<int> params((size_t)nreq); std::vector<std::string> bodies((size_t)nreq); std::vector<int> pauseAfter((size_t)nreq, -1);
@@ -135,6 +138,16 @@ static void c15_batch(long idx, long n, uint64_t seed) {
             if (scenario == 4) { if (b == B_IMMEDIATE) to = 250; else param = 600 + r.range(0, 39); }
             if (b == B_NEVER) to = 400;
             if (b == B_LATE) { to = 200; param = 600; }
+            if (scenario == 5) {
+                // One I/O thread, two connections.  Request 0 is answered after 596 ms and its continuation keeps the I/O thread busy for
+                // 8 ms.  Requests 1-3 (time-out 200 ms, answered after 599 ms) follow each other on the second connection: the third one's
+                // timer expires at 600 ms, the late answer to the first arrives at 599 ms - both while the I/O thread is busy, so they are
+                // reported together, the answer first.  Requests 4-6 (no time-out) are queued behind.  What the late answer does to the
+                // requests is the recorded finding; the timer event that is left over must not be applied to request 4.
+                bodies[(size_t)k].clear(); pauseAfter[(size_t)k] = -1;
+                if (k == 0) { b = B_DELAYED; param = 10596; to = 0; } else if (k <= 3) { b = B_LATE; param = 599; to = 200; } else { b = B_IMMEDIATE; param = 5; to = 0; }
+                beh[(size_t)k] = b;
+            }
             timeoutMs[(size_t)k] = to; params[(size_t)k] = param;
             if (r.chance(1, 3)) { int bl = r.range(1, 300); for (int j = 0; j < bl; j++) bodies[(size_t)k] += (char)r.below(256); }
             if (r.chance(1, 6)) pauseAfter[(size_t)k] = r.range(0, 3);
@@ -151,7 +164,8 @@ static void c15_batch(long idx, long n, uint64_t seed) {
             Outcome* o = out[(size_t)k].get();
             auto rb = prebuilt ? *prebuilt : build(k);
             try {
-                rb.send().then([o](Http::Response resp) { int t = -1; sscanf(resp.body().c_str(), "tag=%d;", &t); o->tag = t; o->status = (int)resp.code(); o->at = lv::now(); o->fulfilled++; },
+                bool blockIo = scenario == 5 && k == 0;
+                rb.send().then([o, blockIo](Http::Response resp) { int t = -1; sscanf(resp.body().c_str(), "tag=%d;", &t); o->tag = t; o->status = (int)resp.code(); o->at = lv::now(); o->fulfilled++; if (blockIo) lv::msleep(8); },
                                [o](std::exception_ptr) { o->at = lv::now(); o->rejected++; });
             } catch (const std::exception& e) { o->err = e.what(); o->rejected++; }
             if (pauseAfter[(size_t)k] >= 0) lv::msleep(pauseAfter[(size_t)k]);
@@ -317,7 +331,7 @@ static void run_c15(long cases) {
     for (long n = 0; n < cases; n++) {
         long idx = g_opts.shard * 100000L + n;
         uint64_t seed = r.next();
-        int scenario = (int)(n % 5);
+        int scenario = (int)(n % 6);
         pid_t pid = fork();
         if (pid == 0) { c15_batch(idx, n, seed); _exit(0); }
         double end = lv::now() + 25.0 * lv::load_factor(); int status = 0; bool exited = false;
